@@ -6,5 +6,6 @@ CONSTANTS
   R = 2
   Shift = 0
   Rand = FALSE
+  TemplateSet = {1, 2, 3, 4, 5, 6, 7, 8, 9, 10, 11, 12, 13, 14, 15, 16, 17, 18, 19, 20, 21}
 INVARIANT Emit
 CHECK_DEADLOCK FALSE
